@@ -152,6 +152,13 @@ func c10gen(cw *caseWriter, tier string, r *rng) {
 			return [][]uint64{evAppend(3, 3, 3, 1, 1, e1, 4, 0, nil), evInstall(3, 3, 3, 6, 3, cfg4, 4, []uint64{302, 303, 305, 306}, false, 0, nil),
 				evAppend(3, 3, 3, 6, 3, [][4]uint64{mk(7, 3, 0, 307)}, 7, 0, nil)}
 		}, []int{1, 3, 1}},
+		{"take-snapshot", func(uint64) [][]uint64 {
+			return [][]uint64{evAppend(3, 3, 3, 1, 1, e1, 4, 0, nil), evSnapshot(0, nil), evAppend(3, 3, 3, 4, 3, e2, 6, 0, nil), evSnapshot(0, nil)}
+		}, []int{1, 2, 1, 2}},
+		{"snapshot-with-uncommitted-configuration", func(uint64) [][]uint64 {
+			// entries 2,3 and the configuration entry 4 stored, only 3 committed: the snapshot must record the configuration of index 1
+			return [][]uint64{evAppend(3, 3, 3, 1, 1, e1, 3, 0, nil), evSnapshot(0, nil), evAppend(3, 3, 3, 4, 3, e2, 6, 0, nil), evSnapshot(0, nil)}
+		}, []int{1, 2, 1, 2}},
 		{"install-behind-log", func(uint64) [][]uint64 {
 			return [][]uint64{evAppend(3, 3, 3, 1, 1, append(append([][4]uint64{}, e1...), e2...), 3, 0, nil),
 				evInstall(3, 3, 3, 4, 3, cfg4, 4, []uint64{302, 303}, false, 0, nil), evAppend(3, 3, 3, 6, 3, nil, 6, 0, nil)}
@@ -187,6 +194,7 @@ func c10gen(cw *caseWriter, tier string, r *rng) {
 								c10monitor(cw)(tag, in, obs)
 								c06monitor(cw)(tag, in, obs)
 								c04monitor(cw)(tag, in, obs)
+								c11monitor(cw)(tag, in, obs)
 							})
 							n++
 						}
